@@ -233,9 +233,9 @@ MUTANTS = [
      "            self._reset_lazyproperties(instance)\n",
      "        value = self._validate(value)  # np.ndarray\n"),
     ('C09', 'unnormalize_keeps_normalization_value', 'profiles/core.py',
-     "                                             * self.normalization_value)\n"
+     "                                          * self.normalization_value)\n"
      "        self.normalization_value = 1.0\n",
-     "                                             * self.normalization_value)\n"),
+     "                                          * self.normalization_value)\n"),
     ('C09', 'starfinder_caches_convolved_image', 'detection/starfinder.py',
      "        convolved_data = _filter_data(data, kernel, mode='constant',\n"
      "                                      fill_value=0.0,\n"
